@@ -28,12 +28,13 @@ fn router_ll(r: u8) -> [u8; 16] {
 fn router_mac(r: u8) -> [u8; 6] {
     [2, 0, 0, 0, 2, 0xa0 + r]
 }
-/// prefix kinds: 1, 2 global /64; 3 link-local /64; 4 a /48
+/// prefix kinds: 1, 2 global /64; 3 link-local /64; 4 a /48; 5 a prefix length of 200
 fn prefix_of(k: u8) -> ([u8; 16], u8) {
     match k {
         1 => ([0x20, 0x01, 0x0d, 0xb8, 0, 1, 0, 0, 0, 0, 0, 0, 0, 0, 0, 0], 64),
         2 => ([0x20, 0x01, 0x0d, 0xb8, 0, 2, 0, 0, 0, 0, 0, 0, 0, 0, 0, 0], 64),
         3 => ([0xfe, 0x80, 0, 0, 0, 0, 0, 0, 0, 0, 0, 0, 0, 0, 0, 0], 64),
+        5 => ([0x20, 0x01, 0x0d, 0xb8, 0, 5, 0, 0, 0, 0, 0, 0, 0, 0, 0, 0], 200), // a prefix length no IPv6 prefix can have
         _ => ([0x20, 0x01, 0x0d, 0xb8, 0, 3, 0, 0, 0, 0, 0, 0, 0, 0, 0, 0], 48),
     }
 }
@@ -242,7 +243,8 @@ pub fn random(args: &Args) {
                 pref: if valid == 0 { 0 } else { rng.range(0, valid as u64) as u32 },
             };
             if hostile {
-                match rng.below(6) {
+                match rng.below(7) {
+                    6 => ra.pk = 5,
                     0 => ra.hl = 64,
                     1 => ra.src_ll = false,
                     2 => ra.cs_ok = false,
@@ -294,7 +296,7 @@ pub fn random(args: &Args) {
                 while !pending.is_empty() && pending[0].0 <= tpoll {
                     let (_, ra) = pending.remove(0);
                     let ok = ra.hl == 255 && ra.src_ll && ra.cs_ok;
-                    let pok = ok && ra.pk != 0 && ra.pk != 3 && ra.aflag && ra.pref <= ra.valid;
+                    let pok = ok && ra.pk != 0 && ra.pk != 3 && ra.pk != 5 && ra.aflag && ra.pref <= ra.valid;
                     t.ev(json!({"ev":"ra","now":tpoll,"from":ra.from,"rl":ra.rl,"ok":ok,"pok":pok,"pk":ra.pk,"valid":ra.valid as u64,"pref":ra.pref as u64,
                                 "hl":ra.hl,"srcll":ra.src_ll,"cs":ra.cs_ok,"aflag":ra.aflag,"dst":ra.dst}));
                     frames.push(ra_frame(&ra));
